@@ -3581,6 +3581,7 @@ tsk_treeseq_branch_allele_frequency_spectrum(const tsk_treeseq_t *self,
             v = edge_parent[h];
             parent[u] = v;
             branch_length[u] = node_time[v] - node_time[u];
+            last_update[u] = t_left;
             while (v != TSK_NULL) {
                 ret = tsk_treeseq_update_branch_afs(self, v, t_left, branch_length,
                     last_update, counts, num_sample_sets, window_index, result_dims,
